@@ -81,7 +81,9 @@ Fixpoint settle (c : cfg) (fuel : nat) (s : st) : st :=
 (* from the state a schedule leads to, with at least one Close started: do the helpers finish it? *)
 Definition closes_ok (c : cfg) (s : st) : bool :=
   let s' := settle c 600 (match cl s with [] => s <| cl := [C0] |> | _ => s end) in
-  all_returned s' && tore s' && final s' && negb (crashed s').
+  all_returned s' && tore s' && final s' && negb (crashed s')
+  (* and every read pump has really ended *)
+  && forallb (fun t => match rp t with RPExit => true | _ => false end) (trs s').
 
 Fixpoint walk_to (c : cfg) (n : nat) (x : N) (s : st) : st :=
   match n with
